@@ -134,6 +134,9 @@ func (obj *SparseFloat64Vector) SET(x *SparseFloat64Vector) {
   }
 }
 func (obj *SparseFloat64Vector) SLICE(i, j int) *SparseFloat64Vector {
+  if i < 0 || i > j || j > obj.n {
+    panic(fmt.Errorf("slice (%d:%d) out of bounds for vector of dimension %d", i, j, obj.n))
+  }
   r := nilSparseFloat64Vector(j-i)
   for it := obj.indexIteratorFrom(i); it.Ok(); it.Next() {
     if it.Get() >= j {
